@@ -5,9 +5,9 @@ import (
 	"fmt"
 	"time"
 
-	abci "github.com/tendermint/tendermint/abci/types"
 	"github.com/pokt-network/pocket-core/store/rootmulti"
 	storetypes "github.com/pokt-network/pocket-core/store/types"
+	abci "github.com/tendermint/tendermint/abci/types"
 
 	"verif/internal/ev"
 	"verif/internal/seq"
